@@ -11,6 +11,8 @@ from . import engine_data
 from . import oracle_c18
 from . import oracle_c01
 from . import oracle_c11
+from . import gen_cli
+from . import engine_cli
 from . import seams
 from . import prng
 from . import world as W
@@ -242,7 +244,119 @@ def c11_execute(spec, workdir):
     return res
 
 
+# ---------------------------------------------------------------------------------- C13 (engine B)
+def c13_signature(spec, v):
+    k = v["kind"]
+    d = v.get("detail", {})
+    if k == "not_rejected":
+        return "not_rejected cls=%s bad=%s" % (d.get("cls"), " ".join(d.get("bad", [])))
+    if k == "fault_not_rejected":
+        f = d.get("fault", {})
+        fmt = "?"
+        for p in W.parties(spec["world"]):
+            if p["name"] == f.get("file"):
+                fmt = p["format"]
+        return "fault_not_rejected type=%s%s format=%s" % (f.get("type"), ":" + f["mode"] if f.get("mode") else
+                                                         (":" + f["errno"] if f.get("errno") else ""), fmt)
+    if k == "config_fault_ignored":
+        return "config_fault_ignored fault=%s" % d.get("fault", {}).get("type")
+    return k
+
+
+def _cli_ilv(spec):
+    seq = []
+    for c in spec["cases"]:
+        if c["kind"] == "env":
+            seq.append(("env", c["op"]["op"], c["op"].get("zone")))
+        elif c["kind"] == "reject":
+            seq.append(("reject", c["cls"], tuple(c["bad"])))
+        elif c["kind"] == "fault":
+            seq.append(("fault", c["fault"]["type"], c["fault"].get("mode"), c["fault"].get("errno")))
+        else:
+            argv = c.get("a") or c.get("argv")
+            seq.append((c["kind"], tuple(t for t in argv if t.startswith("-")), bool(c.get("fault"))))
+    return hashlib.sha256(repr(seq).encode()).hexdigest()[:12]
+
+
+def c13_gen(seed, run, tier):
+    return gen_cli.gen_spec_c13(seed, run, tier)
+
+
+def c13_execute(spec, workdir):
+    sim = engine_cli.CliSim(spec, workdir)
+    res = sim.run()
+    shutil.rmtree(workdir, ignore_errors=True)
+    res["mode"] = "cli-session"
+    if res["violation"] is not None:
+        res["violation"]["signature"] = c13_signature(spec, res["violation"])
+    res["ilv"] = _cli_ilv(spec)
+    st = res["stats"]
+    res["nontrivial"] = (st.get("rel_order_both_ok", 0) + st.get("rel_config_both_ok", 0) + st.get("rel_reject", 0)
+                         + st.get("probe:fault_expect_reject", 0) + st.get("probe:config_fault_fired", 0)) >= 2
+    return res
+
+
+# ---------------------------------------------------------------------------------- C18 command-line clause (engine B)
+def c18cli_execute(spec, workdir):
+    sim = engine_cli.CliSim(spec, workdir)
+    res = sim.run()
+    shutil.rmtree(workdir, ignore_errors=True)
+    res["mode"] = "cli-" + ("pinned" if spec.get("pinned", True) else "unpinned")
+    v = res["violation"]
+    if v is not None:
+        argv = v.get("detail", {}).get("argv", [])
+        rng_dep = False
+        if v["kind"] == "repeat_differs" and not spec.get("pinned", True):
+            sim2 = engine_cli.CliSim(dict(spec, pinned=True, fresh=False), workdir + "-p")
+            res2 = sim2.run()
+            shutil.rmtree(workdir + "-p", ignore_errors=True)
+            rng_dep = res2["violation"] is None
+        if v["kind"] in ("fresh_process_differs", "fresh_vs_session_differs"):
+            # unseeded global RNG differs between interpreters by construction
+            w = spec["world"]["variable"]
+            rng_dep = engine_cli.uses_pit(argv) and (w.get("x0") is not None or w.get("x1") is not None)
+        if rng_dep:
+            w = spec["world"]["variable"]
+            has = w.get("x0") is not None or w.get("x1") is not None
+            if engine_cli.uses_pit(argv) and has:
+                sig = "rng_dependent_result field=Pit requires=x0|x1"
+            else:
+                sig = "rng_dependent_result cli metric=%s" % engine_cli.metric_of(argv)
+            v = {"step": v["step"], "kind": "rng_dependent_result", "detail": dict(v["detail"], unpinned_kind=v["kind"]),
+                 "signature": sig}
+        else:
+            v["signature"] = "cli %s metric=%s" % (v["kind"], engine_cli.metric_of(argv))
+        res["violation"] = v
+    res["ilv"] = _cli_ilv(spec)
+    res["nontrivial"] = res["stats"].get("rel_repeat_both_ok", 0) >= 1
+    return res
+
+
+def c18_gen_mixed(seed, run, tier):
+    if run % 5 == 4:
+        return gen_cli.gen_spec_c18cli(seed, run, tier)
+    return c18_gen(seed, run, tier)
+
+
+def c18_execute_mixed(spec, workdir):
+    if spec.get("engine") == "B":
+        return c18cli_execute(spec, workdir)
+    return c18_execute(spec, workdir)
+
+
 PROPS = {
+    "C13": {"gen": c13_gen, "execute": c13_execute, "engine": "B",
+            "runs": {"quick": 1200, "thorough": 60000},
+            "expected_probes": ["rel_order_both_ok", "rel_config_both_ok", "rel_reject", "probe:fault_expect_reject",
+                                "probe:config_fault_fired", "probe:recovery_checks", "open_error:EACCES", "read_error",
+                                "torn", "corrupt:dir"],
+            "rule": "one evaluation = one seeded command-line session (3-8 cases quick, up to 16 thorough) on a generated "
+                    "world: order / --config equivalence pairs, syntactically invalid command lines of every class the "
+                    "statement lists, and otherwise valid commands run under an injected file fault (open errors of five "
+                    "errnos at the 1st-3rd open, read error after n lines, torn file, empty/garbage/junk/bit-flipped/"
+                    "directory/missing file, faults on the --config file), with time-zone and RNG perturbation between "
+                    "cases; non-trivial = at least two relation instances were actually decided (both sides succeeded, "
+                    "or a rejection was demanded); distinct = distinct run digests among non-trivial runs"},
     "C11": {"gen": c11_gen, "execute": c11_execute, "engine": "A",
             "runs": {"quick": 3000, "thorough": 60000},
             "expected_probes": ["probe:sweeps_decoded", "probe:multi_slice_sweeps", "probe:jump_inside_sweep",
@@ -266,11 +380,14 @@ PROPS = {
                     "are repeated on a twin world with one input's forecast values changed; "
                     "non-trivial = at least one pair of sibling responses from different inputs was compared; "
                     "distinct = distinct run digests among non-trivial runs"},
-    "C18": {"gen": c18_gen, "execute": c18_execute, "engine": "A",
-            "runs": {"quick": 4000, "thorough": 150000},
+    "C18": {"gen": c18_gen_mixed, "execute": c18_execute_mixed, "engine": "A+B",
+            "runs": {"quick": 3000, "thorough": 150000},
             "rule": "one evaluation = one seeded simulated session (generated world of 1-4 inputs +/- climatology "
                     "materialised as text/NetCDF files, constructor configuration, 2-12 (quick) / up to 40 (thorough) "
                     "scheduled operations from 1-4 interleaved clients with fault/environment operations); "
-                    "non-trivial = at least two requests that missed the request cache reached the data layer; "
+                    "every fifth run is instead a command-line session (engine B) in which commands are repeated with other "
+                    "commands and environment perturbation in between (a sample re-run in fresh interpreters); "
+                    "non-trivial = at least two requests that missed the request cache reached the data layer (engine A) / "
+                    "at least one repeated command succeeded both times (engine B); "
                     "distinct = distinct run digests (sha256 of the canonical event log) among non-trivial runs"},
 }
